@@ -19,11 +19,25 @@ nothing is shared with the Hartigan bit-set code in c/tskit/trees.c):
                  ("if there are unary nodes between two branch points ... the oldest node is used");
  (5) errors      all-missing / wrong-length / out-of-range genotypes and bad ancestral states raise.
 
+Entry points and argument forms driven (see AUDIT-C20.md): Tree.map_mutations positional and by keyword;
+genotypes as list / tuple / numpy int8, int16, int32, int64, uint8, uint64, big-endian, non-contiguous view,
+and the live Variant.genotypes buffer together with Variant.alleles (trailing None under isolated_as_missing);
+alleles as tuple / list / str of single characters; ancestral_state as int, str, numpy integer, numpy.str_;
+the low-level Tree.map_mutations of _tskit directly (index level; the C range checks that the Python
+wrapper otherwise shadows); trees obtained through at / at_index / trees() / aslist / Tree(ts)+seek /
+seek_index / first-next and last-prev sweeps of ONE reused object / copy() / sample_lists + tracked_samples
+options / the null state / root_threshold=2; the docstring recipe mutations.append(mutation.replace(...)).
+
 EITHER zones (documentation leaves them open, the oracle accepts all):
- * which of several optimal ancestral states / placements is returned;
+ * which of several optimal ancestral states / placements is returned (also between two calls on one object);
  * the exception class of a documented refusal (any Exception is accepted, a normal return is not);
- * genotype indexes >= len(alleles) (undocumented) are never generated; trees are always used with the
-   default root_threshold=1 (with a higher threshold samples outside the roots are not reached at all).
+ * genotype indexes >= len(alleles) (undocumented) and duplicate allele strings are never generated;
+ * 2-D / float genotype arrays and float ancestral states (undocumented): only "returns or raises";
+ * the low-level method with an ancestral state outside int32 wraps by design (comment in Tree_map_mutations):
+   not generated;
+ * root_threshold > 1: samples outside the tree's roots are not reachable, the oracle is evaluated on the
+   forest below tree.roots only (their observations cannot be reproduced by any placement);
+ * the null tree (no edges; every sample is an isolated root, tree.roots == samples) is checked as exactly that.
 """
 import itertools
 
@@ -91,19 +105,32 @@ def rand_stream(kind, n):
         yield {"gen": kind, "k": k}
 
 
+HUGE_QUICK = 16     # one per shard on a 16-worker run, three per shard with 5 workers; ~1 s each
+ENTRY_FORMS = ("ctor-seek", "ctor-seek-index", "sweep-forward", "sweep-backward", "copy", "options", "null",
+               "root-threshold-2", "aslist", "trees-options", "repeat")
+
+
 def cases(tier, seed):
+    # The interleave periods (quick 13, thorough 307) are coprime to the usual shard counts
+    # (5, 6, 16), so that every worker sees every family (case idx % nshards picks the worker).
     if tier == "quick":
         # the smallest scope first (small witnesses are found first), then interleaved streams
         yield from forest_cases(1) + forest_cases(2) + forest_cases(3)
+        yield from rand_stream("huge", HUGE_QUICK)
         exh = forest_cases(4) + alltrees_cases(3) + alltrees_cases(4)
         yield from interleave(exh, (rand_stream("walk", 80000), 4), rand_stream("wide", 3000),
-                              rand_stream("errors", 2000), rand_stream("fanout", 400))
+                              rand_stream("errors", 2000), rand_stream("fanout", 400),
+                              (rand_stream("variants", 20000), 2), (rand_stream("entry", 20000), 2),
+                              rand_stream("deep", 400))
     else:
         yield from forest_cases(1) + forest_cases(2) + forest_cases(3)
+        yield from rand_stream("huge", 32)
         exh = forest_cases(4) + alltrees_cases(3) + alltrees_cases(4) + alltrees_cases(5) + forest_cases(5)
-        yield from interleave((exh, 6), (rand_stream("walk", 4000000), 200), (rand_stream("wide", 200000), 12),
+        yield from interleave((exh, 6), (rand_stream("walk", 4000000), 201), (rand_stream("wide", 200000), 12),
                               (rand_stream("errors", 50000), 2), rand_stream("forest6", 200000),
-                              rand_stream("alltrees67", 200000), rand_stream("fanout", 20000))
+                              rand_stream("alltrees67", 200000), rand_stream("fanout", 20000),
+                              (rand_stream("variants", 1000000), 40), (rand_stream("entry", 1000000), 40),
+                              (rand_stream("deep", 20000), 2), rand_stream("huge", 2000))
 
 
 # --------------------------------------------------------------------------- reference semantics
@@ -231,23 +258,52 @@ def report(ctx, key, msg, detail):
 
 
 
-class TreeCtx:
-    """One marginal tree of one tree sequence, with its reference forest."""
+def fast_roots(fr, samples):
+    """fr.roots(1) without the quadratic descendant walks: the topmost ancestors of the samples."""
+    top = {}
+    out = set()
+    for s in samples:
+        path = []
+        u = s
+        while u not in top and u in fr.parent:
+            path.append(u)
+            u = fr.parent[u]
+        r = top.get(u, u)
+        for v in path:
+            top[v] = r
+        top[u] = r
+        out.add(r)
+    return out
 
-    def __init__(self, ts, tree, m, x):
+
+class TreeCtx:
+    """One marginal tree of one tree sequence, with its reference forest.  `fr` / `roots` override the
+    reference forest (null tree: no edges) and the root set (root_threshold > 1)."""
+
+    def __init__(self, ts, tree, m, x, fr=None, roots=None, note=None):
         self.ts = ts
         self.tree = tree
         self.m = m
         self.x = x
-        self.fr = forest(m, x)
+        self.fr = forest(m, x) if fr is None else fr
         self.samples = m.samples()
-        self.roots = sorted(self.fr.roots(1))
+        self.roots = sorted(fast_roots(self.fr, self.samples)) if roots is None else sorted(roots)
         self.order = tree_nodes(self.fr, self.roots)
         self.in_tree = set(self.order)
+        self.note = note
+        self._desc = None
 
     def describe(self):
-        return {"parent": {str(c): p for c, p in sorted(self.fr.parent.items())},
-                "samples": self.samples, "position": self.x, "num_nodes": self.m.num_nodes}
+        if self._desc is None:
+            items = sorted(self.fr.parent.items())
+            d = {"parent": {str(c): p for c, p in items[:300]}, "samples": self.samples[:300],
+                 "position": self.x, "num_nodes": self.m.num_nodes}
+            if len(items) > 300 or len(self.samples) > 300:
+                d["truncated"] = "large tree: the case descriptor of the replay file rebuilds it exactly"
+            if self.note:
+                d["tree-obtained-by"] = self.note
+            self._desc = d
+        return self._desc
 
 
 def classify_suboptimal(T, geno, alleles, anc_arg, opt, mut_nodes):
@@ -277,21 +333,66 @@ def classify_suboptimal(T, geno, alleles, anc_arg, opt, mut_nodes):
     return "map_mutations/not-parsimonious"
 
 
-def check_call(ctx, T, geno, alleles, anc_arg, how="list"):
-    """Call the real map_mutations and evaluate oracles (1)-(4)."""
-    fr = T.fr
+GENO_FORMS = ("list", "int8", "int32", "tuple", "int64", "int16", "uint8", "uint64", "bigendian", "strided",
+              "strided32", "readonly")
+
+
+def genotype_arg(geno, how):
+    """The same observation vector in another argument form (array_like is all the docs say).  Unsigned
+    forms cannot carry the missing value and fall back to int64."""
     if how == "list":
-        garg = list(geno)
-    elif how == "int8":
-        garg = np.array(geno, dtype=np.int8)
-    elif how == "int32":
-        garg = np.array(geno, dtype=np.int32)
-    else:
-        garg = tuple(geno)
-    witness = {"tree": T.describe(), "genotypes": list(geno), "alleles": list(alleles),
-               "ancestral_state": anc_arg}
+        return list(geno)
+    if how == "tuple":
+        return tuple(geno)
+    if how in ("uint8", "uint64") and min(geno) < 0:
+        how = "int64"
+    if how in ("int8", "int16", "int32", "int64", "uint8", "uint64"):
+        return np.array(geno, dtype=how)
+    if how == "bigendian":
+        return np.array(geno, dtype=">i4")
+    if how == "strided":  # every second element of a buffer whose other elements are poison
+        buf = np.full(2 * len(geno), 77, dtype=np.int8)
+        buf[::2] = geno
+        return buf[::2]
+    if how == "strided32":
+        buf = np.full(3 * len(geno) + 1, 64, dtype=np.int32)
+        buf[1::3] = geno
+        return buf[1::3]
+    if how == "readonly":
+        arr = np.array(geno, dtype=np.int8)
+        arr.setflags(write=False)
+        return arr
+    raise ValueError(how)
+
+
+def plain(x):
+    """JSON-able literal of an argument for the witness."""
+    if isinstance(x, str):
+        return str(x)
+    if isinstance(x, (bool, np.bool_)):
+        return bool(x)
+    if isinstance(x, (int, np.integer)):
+        return int(x)
+    return x
+
+
+def check_call(ctx, T, geno, alleles, anc_arg, how="list", kw=False, raw=None, want_objects=False):
+    """Call the real map_mutations and evaluate oracles (1)-(4).  `raw` is a ready-made genotypes object
+    (e.g. the live Variant.genotypes buffer) that holds the values of `geno`."""
+    garg = raw if raw is not None else genotype_arg(geno, how)
+    witness = {"tree": T.describe(), "genotypes": [int(g) for g in geno], "alleles": list(alleles),
+               "ancestral_state": plain(anc_arg),
+               "argument-form": f"genotypes:{how if raw is None else 'as-given'} alleles:{type(alleles).__name__} "
+                                f"ancestral_state:{type(anc_arg).__name__} {'keyword' if kw else 'positional'}"}
     try:
-        anc, muts = T.tree.map_mutations(garg, alleles, anc_arg)
+        if kw == "omit":
+            anc, muts = T.tree.map_mutations(alleles=alleles, genotypes=garg)
+        elif kw:
+            anc, muts = T.tree.map_mutations(genotypes=garg, alleles=alleles, ancestral_state=anc_arg)
+        elif anc_arg is None and how in ("tuple", "int16"):
+            anc, muts = T.tree.map_mutations(garg, alleles)  # two-argument form
+        else:
+            anc, muts = T.tree.map_mutations(garg, alleles, anc_arg)
     except Exception as e:
         ctx.count("map_mutations:valid-call")
         report(ctx, "map_mutations/valid-input-raises",
@@ -303,8 +404,69 @@ def check_call(ctx, T, geno, alleles, anc_arg, how="list"):
     except Exception as e:
         report(ctx, "map_mutations/malformed-result", f"{type(e).__name__}: {e}; {witness}", witness)
         return
-    witness["got"] = {"ancestral_state": anc, "mutations": mlist}
-    aset = set(alleles)
+    res = evaluate(ctx, T, geno, alleles, anc_arg, anc, mlist, witness)
+    if res is not None and want_objects:
+        return anc, mlist, muts
+    return res
+
+
+LL_ALLELES = tuple(f"s{i}" for i in range(64))
+
+
+def check_ll(ctx, T, geno, anc_idx, how="int32", kw=False):
+    """The low-level method directly: (genotypes, ancestral_state index or None) ->
+    (ancestral index, [(node, parent, state)]).  Evaluated by the same oracles on index level."""
+    garg = genotype_arg(geno, how)
+    witness = {"tree": T.describe(), "genotypes": [int(g) for g in geno], "ancestral_state": plain(anc_idx),
+               "entry": f"_tskit.Tree.map_mutations genotypes:{how} {'keyword' if kw else 'positional'}"}
+    ctx.count("oracle:ll-direct")
+    try:
+        if kw:
+            res = T.tree._ll_tree.map_mutations(genotypes=garg, ancestral_state=anc_idx)
+        elif anc_idx is None and how == "list":
+            res = T.tree._ll_tree.map_mutations(garg)
+        else:
+            res = T.tree._ll_tree.map_mutations(garg, anc_idx)
+    except Exception as e:
+        report(ctx, "map_mutations/low-level/valid-input-raises",
+               f"valid input raised {type(e).__name__}: {e}; {witness}", witness)
+        return
+    try:
+        a, trans = res
+        ok = isinstance(a, int) and 0 <= a < 64 and all(
+            isinstance(n, int) and isinstance(p, int) and isinstance(st, int) and 0 <= st < 64 for n, p, st in trans)
+    except Exception:
+        ok = False
+    if not ok:
+        report(ctx, "map_mutations/low-level/malformed-result", f"returned {res!r}; {witness}", witness)
+        return
+    mlist = [(n, LL_ALLELES[st], p) for n, p, st in trans]
+    return evaluate(ctx, T, geno, LL_ALLELES, anc_idx, LL_ALLELES[a], mlist, witness)
+
+
+def states_topdown(T, anc, mlist):
+    """State of every tree node under (anc, mlist), parents before children (linear time)."""
+    last = {}
+    for i, mu in enumerate(mlist):
+        last[mu[0]] = i
+    st = {}
+    parent = T.fr.parent
+    for u in reversed(T.order):
+        if u in last:
+            st[u] = mlist[last[u]][1]
+        elif u in parent:
+            st[u] = st[parent[u]]
+        else:
+            st[u] = anc
+    return st
+
+
+def evaluate(ctx, T, geno, alleles, anc_arg, anc, mlist, witness):
+    """Oracles (1)-(4) on a returned (ancestral state, [(node, derived state, parent)])."""
+    fr = T.fr
+    witness["got"] = {"ancestral_state": anc, "mutations": mlist if len(mlist) <= 200 else
+                      mlist[:200] + [f"... {len(mlist)} in total"]}
+    aset = set(a for a in alleles if a is not None)
     if not isinstance(anc, str) or anc not in aset or any(
             (not isinstance(d, str)) or d not in aset for _, d, _ in mlist):
         report(ctx, "map_mutations/state-not-an-allele", f"{witness}", witness)
@@ -315,7 +477,7 @@ def check_call(ctx, T, geno, alleles, anc_arg, how="list"):
     # fixed ancestral state is honoured
     fixed = None
     if anc_arg is not None:
-        fixed = anc_arg if isinstance(anc_arg, str) else alleles[anc_arg]
+        fixed = str(anc_arg) if isinstance(anc_arg, str) else alleles[anc_arg]
         ctx.count("oracle:fixed-ancestral-state")
         if anc != fixed:
             report(ctx, "map_mutations/fixed-ancestral-state-ignored",
@@ -323,13 +485,17 @@ def check_call(ctx, T, geno, alleles, anc_arg, how="list"):
     # (1) reproduce
     obs = {}
     for j, u in enumerate(T.samples):
-        if geno[j] != MISSING:
+        if geno[j] != MISSING and u in T.in_tree:  # outside the tree only with root_threshold > 1
             obs[u] = alleles[geno[j]]
     bad = []
-    for u, a in obs.items():
-        got = read_back(fr, anc, mlist, u)
-        if got != a:
-            bad.append((u, a, got))
+    if len(T.order) > 64:
+        st = states_topdown(T, anc, mlist)
+        bad = [(u, a, st[u]) for u, a in obs.items() if st[u] != a]
+    else:
+        for u, a in obs.items():
+            got = read_back(fr, anc, mlist, u)
+            if got != a:
+                bad.append((u, a, got))
     ctx.count("oracle:reproduce")
     if bad:
         report(ctx, "map_mutations/observation-not-reproduced",
@@ -405,6 +571,58 @@ def check_via_tables(ctx, T, geno, alleles, anc, mlist):
                           f"sample {u}: decoded {var.alleles[var.genotypes[j]]!r}, observed "
                           f"{alleles[geno[j]]!r}; {witness}", witness)
             return
+
+
+def check_docstring_route(ctx, T, geno, alleles, anc, muts, rng):
+    """(3) exactly as the docstring recipe: a new site (not necessarily the last one) is added to the
+    tables of the tree sequence itself, every returned Mutation OBJECT goes in through
+    mutations.append(mutation.replace(site=..., parent=mapped)), then sort() and tree_sequence()."""
+    if T.x is None:
+        return
+    tables = T.ts.dump_tables()
+    left, right = T.tree.interval.left, T.tree.interval.right
+    taken = set(float(p) for p in tables.sites.position)
+    pos = None
+    for cand in (T.x, (left + right) / 2, left, (left + 3 * right) / 4):
+        if left <= cand < right and cand not in taken:
+            pos = cand
+            break
+    if pos is None:
+        return
+    witness = {"tree": T.describe(), "genotypes": [int(g) for g in geno], "alleles": list(alleles), "new-site-position": pos,
+               "got": {"ancestral_state": anc, "mutations": [(int(mu.node), mu.derived_state, int(mu.parent))
+                                                             for mu in muts][:200]}}
+    ctx.count("oracle:docstring-route")
+    if taken and pos < max(taken):
+        ctx.feature("docstring-route:site-not-last")
+    if tables.mutations.metadata_schema.schema is not None:
+        ctx.feature("docstring-route:mutation-metadata-schema")
+    try:
+        site_id = tables.sites.add_row(pos, anc)
+        mut_id_map = {tskit.NULL: tskit.NULL}
+        for list_id, mutation in enumerate(muts):
+            mut_id_map[list_id] = tables.mutations.append(
+                mutation.replace(site=site_id, parent=mut_id_map[mutation.parent]))
+        tables.sort()
+        ts2 = tables.tree_sequence()
+    except Exception as e:
+        report(ctx, "map_mutations/result-not-a-valid-mutation-table/docstring-recipe",
+               f"{type(e).__name__}: {e}; {witness}", witness)
+        return
+    for var in ts2.variants(isolated_as_missing=False):
+        if var.site.position != pos:
+            continue
+        for j, u in enumerate(T.samples):
+            if geno[j] == MISSING:
+                continue
+            if var.alleles[var.genotypes[j]] != alleles[geno[j]]:
+                report(ctx, "map_mutations/observation-not-reproduced/decoded/docstring-recipe",
+                       f"sample {u}: decoded {var.alleles[var.genotypes[j]]!r}, observed {alleles[geno[j]]!r}; "
+                       f"{witness}", witness)
+                return
+        return
+    report(ctx, "map_mutations/result-not-a-valid-mutation-table/docstring-recipe",
+           f"the new site is not in the tree sequence; {witness}", witness)
 
 
 def expect_raise(ctx, T, geno, alleles, anc_arg, key, why):
